@@ -238,9 +238,25 @@ def oracle_progress(w: World, ix: Index | None = None) -> list[dict[str, Any]]:
         if clean:
             marked = min((v['g'] for v in w.history[uid] if v['body']['metadata'].get('deletionTimestamp')), default=None)
             if marked is not None:
+                # "absent ... echo delays beyond the consistency timeout": an invocation on a view older than this operator's own acknowledged write,
+                # made after that write's consistency timeout has run out (its echo never came: e.g. the stream broke and the object was gone
+                # at the re-listing), is what the statement excludes; its success is not counted against the one before it
+                by_seq = {c['seq']: c for c in ix.calls if c['uid'] == uid}
+                ct_ = float((w.desc.get('settings') or {}).get('persistence__consistency_timeout', 5.0) or 0.0)
+                late_echo = set()
+                for r in ix.rets.values():
+                    c = by_seq.get(r['seq'])
+                    if c is not None and r['uid'] == uid and c.get('rv') is not None and c.get('inc'):
+                        if int(c['rv']) < ix.known_version(c['inc'], uid, c['g']) and int(c['rv']) >= ix.known_version(c['inc'], uid, c['g'], t=c['t']):
+                            late_echo.add(r['g'])
+                        # the operator's own release of the finalizer removed the object (with or without a bump of the resourceVersion -- both occur):
+                        # every later invocation is on a view older than that write; after its consistency timeout the statement excludes it
+                        last = w.history[uid][-1]
+                        if last['type'] == 'DELETED' and last.get('writer') == c['inc'] and last['g'] < c['g'] and c['t'] >= last['t'] + ct_ - 1e-6:
+                            late_echo.add(r['g'])
                 dsucc: dict[str, int] = {}
                 for g, h, o in finals:
-                    if g > marked and o == 'ok' and h.split('/')[0] in by_kind.get('delete', []):
+                    if g > marked and o == 'ok' and h.split('/')[0] in by_kind.get('delete', []) and g not in late_echo:
                         dsucc[h] = dsucc.get(h, 0) + 1
                 for h, n in dsucc.items():
                     if n > 1:
